@@ -12,6 +12,10 @@ CHECKS = {
    text="byte-equality oracle against the same request executed alone on a fresh thread, observed under single-thread histories (corpus/failing/other-style prefixes, adversarial interner pre-loads, repetition), fresh processes (fresh hash seeds) and 2-16 concurrent threads; unique-id() monitor; thorough adds ThreadSanitizer on the threaded workload and Miri with seeded schedules",
    note="histories <= 60 compilations, schedules sampled not enumerated; three order-exposure defects with one root cause (maps ordered by interner key / hash order) are recorded as known findings and matched narrowly (permutation of tokens in programs that use the triggering construct)",
    technique="runtime monitoring: differential history/process/schedule replay against a fresh-thread reference; TSan and Miri (seeded schedules) in thorough tier"),
+ "C06": dict(engine="vw+vp",
+   text="metamorphic monitor: every input (golden corpus, compiling near-miss mutations, generated programs biased to the value-to-text conversion sites) is compiled in both styles; canonical (context, selector, declarations) lists from an independent CSS reader must be equal once exactly the licensed differences are removed (whitespace, optional semicolons, non-/*! comments, number and colour spellings); success/failure, @error text, Logger message sequences and probe-observed values must be equal; string tokens are never canonicalised",
+   note="the canonicaliser is the trusted base (CSS Syntax 3 tokenizer + colour table + hsl->rgb); outputs that are not parseable CSS in either style are inconclusive; wording of compiler-generated error messages is not compared",
+   technique="runtime monitoring: metamorphic differential oracle (expanded vs compressed) over recorded outputs, Logger traces and probe values"),
 }
 
 ALL = ["C%02d" % i for i in range(1, 21)]
